@@ -84,6 +84,16 @@ def known_nonzero(num, x):
                     truth = (op == "notin" and tuple(v) == (0,)) or (op == "==" and v == 1)
                     if truth == want_true:
                         return True
+    # primitive comparison x == 0 / x != 0 taken on the path
+    for (t, op, v) in getattr(num, "ctx_cons", []):
+        if isinstance(t, tuple) and t and t[0] == "binop" and t[1] in ("Eq", "Ne"):
+            a, b = canon_slice(t[2]), canon_slice(t[3])
+            other = b if a == x else a if b == x else None
+            if other is None or not ((other[0] == "uneval" and other[1].endswith("::ZERO")) or (other[0] == "const" and other[1] == 0)):
+                continue
+            truth = (op == "notin" and tuple(v) == (0,)) or (op == "==" and v == 1)
+            if truth == (t[1] == "Ne"):
+                return True
     return False
 
 
@@ -278,6 +288,25 @@ def remainder_post(num, ev):
 
 
 reg(["std::slice::ChunksExact::<'a, T>::remainder", "std::slice::ChunksExactMut::<'a, T>::into_remainder"], post=remainder_post)
+
+
+def split_at_pre(num, ev, cfg):
+    mid, l = num.aff(ev[2][1]), slen(num, ev[8][0])
+    if mid is None:
+        return [("split point is an integer", None)]
+    return [("split point %s <= len" % mir.fmt(ev[2][1])[:40], [le(mid, l)])]
+
+
+def split_at_post(num, ev):
+    """std: split_at(mid) -> ([0, mid), [mid, len)); panics if mid > len"""
+    mid, l = num.aff(ev[2][1]), slen(num, ev[8][0])
+    if mid is None:
+        return []
+    a, b = slen(num, ("field", ev[3], "0")), slen(num, ("field", ev[3], "1"))
+    return [le(a, mid), le(mid, a), le(b, l - mid), le(l - mid, b)]
+
+
+reg(["core::slice::<impl [T]>::split_at", "core::slice::<impl [T]>::split_at_mut"], pre=split_at_pre, post=split_at_post)
 
 
 def next_post(num, ev):
